@@ -1,12 +1,12 @@
------------------------------- MODULE FsTxnGen ------------------------------
-(* Model checking and behaviour generation for FsTxn (C13).                 *)
+------------------------------ MODULE FsMergeGen ------------------------------
+(* Model checking and behaviour generation for FsMerge (C12).                 *)
 (*   st   : abstract state          hist : operations so far (replayed on    *)
 (*   ok   : the step just taken satisfied the property's per-step clauses    *)
 (*   nf   : failing operations so far (progress bias for walks)              *)
-EXTENDS FsTxn, Json
+EXTENDS FsMerge, Json
 CONSTANTS Devs, Depth, MaxFails, SampleOneIn
 VARIABLES st, hist, nf, ok
-IsFail(op, r) == IsErr(r)
+IsFail(op, r) == FALSE
 Init == st = InitSt /\ hist = <<>> /\ nf = 0 /\ ok = TRUE
 Next == \E op \in Ops(st) : \E r \in Steps(st, op, Devs) :
            /\ (IsFail(op, r) => nf < MaxFails)
@@ -14,11 +14,8 @@ Next == \E op \in Ops(st) : \E r \in Steps(st, op, Devs) :
            /\ nf' = IF IsFail(op, r) THEN nf + 1 ELSE nf
            /\ ok' = StepOk(st, op, r)
 \* random walks: one uniformly chosen operation per step (TLC -simulate follows the single successor)
-\* progress-biased: a walk may contain at most MaxFails failing operations (every operation is enabled everywhere,
-\* uniform choice would spend the depth on failing self-loops)
-WalkOps == {op \in Ops(st) : \E r \in Steps(st, op, Devs) : ~IsErr(r) \/ nf < MaxFails}
-NextWalk == \E op \in {RandomElement(WalkOps)} : \E r \in {RandomElement(Steps(st, op, Devs))} :
-           /\ st' = r.post /\ hist' = Append(hist, op) /\ nf' = (IF IsErr(r) THEN nf + 1 ELSE nf) /\ ok' = StepOk(st, op, r)
+NextWalk == \E op \in {RandomElement(Ops(st))} : \E r \in Steps(st, op, Devs) :
+           /\ st' = r.post /\ hist' = Append(hist, op) /\ nf' = nf /\ ok' = StepOk(st, op, r)
 StepInv == ok
 Bound == Len(hist) < Depth
 ViewSt == <<st, ok>>
